@@ -44,3 +44,10 @@ func expMain() {
 		fmt.Println(" batch:", strings.Join(s, " "))
 	}
 }
+
+func init() {
+	if len(os.Args) > 1 && os.Args[1] == "dag" {
+		dagMain()
+		os.Exit(0)
+	}
+}
